@@ -134,6 +134,16 @@ def run_ops(exe, ops_text, timeout=3600, env=None):
     p = subprocess.run([exe], input=ops_text, stdout=subprocess.PIPE, stderr=subprocess.PIPE, text=True, timeout=timeout, env=e)
     return p.stdout.split('\n')[:-1] if p.stdout.endswith('\n') else p.stdout.split('\n'), p.returncode, p.stderr[-6000:]
 
+def split_steps(cpp_lines):
+    """the harness appends ' %%<step>' (raw stored representation before / after an in-place edit) to the
+    answer line of setter and params operations; returns (answer lines without it, [(line index, step)])"""
+    out, steps = [], []
+    for i, l in enumerate(cpp_lines):
+        a, sep, b = l.partition(' %%')
+        out.append(a)
+        if sep: steps.append((i, b))
+    return out, steps
+
 def write_json(path, obj):
     os.makedirs(os.path.dirname(path), exist_ok=True)
     tmp = path + '.tmp'
